@@ -191,6 +191,10 @@ def load_case(case):
             target[k2] = dup  # row k2 is lost, row k1 appears twice: the row count is unchanged
         elif c['corr'] == 'tas_depends_on_mass':
             target[k1][1] += 4.0
+        elif c['corr'] == 'mass_mistyped':
+            # rows are level-major with the three masses in turn: the neighbour row of the same level
+            j = k1 % 3
+            target[k1][3] = MASSES[(j + 1) % 3]
         rows = []
         for ph in ('climb', 'cruise', 'descent'):
             rows += target if ph == c['ph'] else r[ph]
@@ -309,7 +313,7 @@ def ptf_case(case):
 def run(ctx: Ctx):
     ctx.rule = (
         'evaluation: 3 FL sets (2-4 levels, uneven spacing) x mass-dependence coefficients x 3 phases x every half-lattice FL (nodes, mid-points, one step outside each edge) '
-        'x every half-lattice mass (incl. outside, min, max): 3 402 queries; load: every single-row removal / duplication / duplication+removal (row count preserved) / '
+        'x every half-lattice mass (incl. outside, min, max): 3 402 queries; load: every single-row removal / duplication / duplication+removal (row count preserved) / mistyped mass (a pair twice with different values, one missing) / '
         'FL-only rule break of each phase sub-table: 318; PTF: 12 files; non-trivial = not a plain inner node'
     )
     ctx.assumptions += [
